@@ -112,7 +112,48 @@ def rule_r1_r2(ctx, F, rule1='C04-R1', rule2='C04-R2', only_field=None):
                                 if ov.kind == 'arg' and ov.key == 1 and ov.fields()[:1] == ('.' + f,):
                                     fed.append((bb_, c))
                     if not fed:
-                        continue  # reported by the coverage instance above
+                        # the field is not handed to the hasher as a whole: it is walked and its elements are fed
+                        # one by one. Then every element must be fed - a feed that some elements skip makes
+                        # values that differ in a skipped element hash alike.
+                        if f not in got_all:
+                            continue  # reported by the coverage instance above
+                        from taint import origins
+                        nb = F.norm(body)
+                        elem_feeds = []
+                        derived = False
+                        for bb_ in bodies_with_closures(F, nb):
+                            for c in bb_.calls:
+                                if not c.is_('Hash::hash') or not c.args or c.args[0].get('k') not in ('copy', 'move'):
+                                    continue
+                                for o in origins(bb_, c.args[0]):
+                                    if isinstance(o, tuple) and o[0] == 'proj' and o[1].is_('Iterator::next'):
+                                        src = noref(iter_root(F, bb_, o[1]))
+                                        if src.kind == 'arg' and src.key == 1 and src.fields()[:1] == ('.' + f,):
+                                            elem_feeds.append((bb_, c, o[1]))
+                                    elif not isinstance(o, (tuple, str)) and o.is_('Index::index', 'Deref::deref', 'AsRef::as_ref',
+                                                                                 'Vec::as_slice', 'Borrow::borrow'):
+                                        ob, ov = outer_val(F, bb_, bb_.trace(V('call', o.bb), (
+                                            'Index::index', 'Deref::deref', 'AsRef::as_ref', 'Vec::as_slice', 'Borrow::borrow')))
+                                        if ov.kind == 'arg' and ov.key == 1 and ov.fields()[:1] == ('.' + f,):
+                                            derived = True
+                        if derived or not elem_feeds:
+                            continue  # a view of the field (a sub-slice) is fed / per-element hashers: R3, R4, R6
+                        okk = True
+                        for (bb_, c, head) in elem_feeds:
+                            some = bb_.branch(head, 'Some')
+                            if not some:
+                                okk = False
+                                continue
+                            r = bb_.reach([e[1] for e in some], cut_blocks=[c.bb])
+                            if head.bb in r:
+                                okk = False
+                        ctx.check(okk, rule1, 'self.%s-every-element' % f, body,
+                                  good='every element of `%s` is fed to the hasher' % f,
+                                  bad='%s::hash walks `%s` but can skip an element without feeding it: two values that '
+                                      'differ only in a skipped element are fed to the hasher identically (while eq '
+                                      'tells them apart or not - either way the fingerprint is no longer faithful)' %
+                                      (adt['path'], f))
+                        continue
                     ok = any(on_all_paths(F, bb_, c.bb) for (bb_, c) in fed)
                     ctx.check(ok, rule1, 'self.%s-on-every-path' % f, body,
                               good='field `%s` is fed to the hasher on every path' % f,
@@ -150,6 +191,24 @@ def rule_r1_r2(ctx, F, rule1='C04-R1', rule2='C04-R2', only_field=None):
             else:
                 ctx.ok(rule2, 'derivedness', d['hash']['path'], '%s: both derived' % path,
                        span=d['hash']['span'])
+
+
+def iter_root(F, b, nxt):
+    """what the iterator pulled by `nxt` walks: through into_iter / iter / enumerate / zip(first) / copied ..."""
+    v = b.val(nxt.args[0])
+    for _ in range(6):
+        v = noref(b.trace(noref(v), ('IntoIterator::into_iter', 'slice::iter', 'Vec::iter', 'Iterator::enumerate',
+                                     'Iterator::copied', 'Iterator::cloned', 'Deref::deref', 'Iterator::zip',
+                                     'Iterator::rev', 'Iterator::by_ref', 'HashSet::iter', 'HashMap::iter',
+                                     'BTreeMap::iter', 'VecDeque::iter')))
+        if v.kind == 'local' and not v.projs:
+            ds = [d for d in b.defs.get(v.key, []) if d[1] == 'call' or not d[2]['lhs']['p']]
+            if len(ds) == 1 and ds[0][1] == 'call':
+                v = V('call', ds[0][0])
+                continue
+        break
+    ob, ov = outer_val(F, b, v)
+    return ov
 
 
 def hasher_root(F, b, call):
